@@ -67,3 +67,8 @@ package db
 //@   ensures [others] forall b Int :: b != ref(this) ==> @select(ghost(bpend), b) == @select(old(ghost(bpend)), b)
 //@   ensures [size]   ghost(bsize) == @store(old(ghost(bsize)), ref(this), Z(0))
 //@   modifies ghost(bpend), ghost(bsize)
+
+// The concrete LevelDB wrapper, where it is used directly (caches beside the state).
+//@ func LDBDatabase.Put
+//@   option trusted
+//@   modifies ghost(kv), ghost(kvhas)
